@@ -1313,11 +1313,23 @@ func (e *FactEngine) newUniverse(req *Formula, body *ast.BlockStmt, target ...as
 					if _, isVar := sc.info.ObjectOf(id).(*types.Var); !isVar {
 						continue
 					}
-					if !m[strings.TrimPrefix(e.canon(l, sc, nil), "&")] {
-						continue
-					}
+					lname := strings.TrimPrefix(e.canon(l, sc, nil), "&")
 					am := map[string]bool{}
 					e.boolForm(as.Rhs[i], sc).atoms(am)
+					if !m[lname] {
+						// the other direction: the expression speaks about tracked atoms, so the
+						// variable that stores its value is worth tracking
+						share := false
+						for a := range am {
+							if m[a] {
+								share = true
+							}
+						}
+						if !share || len(m)+len(am)+1 > 15 {
+							continue
+						}
+						m[lname] = true
+					}
 					if len(m)+len(am) <= 15 {
 						for a := range am {
 							m[a] = true
@@ -2072,6 +2084,12 @@ func (w *walker) assign(lhs ast.Expr, rhs ast.Expr, s vset) vset {
 		if o := w.sc.info.ObjectOf(id); o != nil {
 			if _, isAlias := w.e.aliases[o]; isAlias {
 				if _, isFlag := w.e.okvars[o]; !isFlag {
+					if call, ok := ast.Unparen(rhs).(*ast.CallExpr); ok && rhs != nil {
+						if post := w.e.callPost(lhs, call, w.sc); post != nil {
+							tt, _ := w.u.may(post)
+							s = s.and(tt)
+						}
+					}
 					return s
 				}
 			}
